@@ -19,7 +19,7 @@ def candidates_unit(args):
     out = []
     seen = set()
     for s in S[lo:hi]:
-        for b in itertools.chain(specwords.cases_for_spec(isa, s, 1, d.maxlen, tier), specwords.prefixed_modrm_cases(isa, s, tier)):
+        for b in itertools.chain(specwords.cases_for_spec(isa, s, 1, d.maxlen, tier), specwords.prefixed_modrm_cases(isa, s, tier), specwords.adrsize_cases(isa, s, tier)):
             if not b:
                 continue
             c = (b + b"\x00" * 15)[:15]
